@@ -767,6 +767,16 @@ func runExplicit(k *vf.Case) {
 			fail("no-histogram-point", what, fmt.Sprintf("%T", a))
 			return
 		}
+		// a consumer may do what it likes with a point it has received (convert units in place, say): later
+		// collections are not affected by it
+		defer func() {
+			for i := range gotBounds {
+				gotBounds[i] = -1 - 3*gotBounds[i]
+			}
+			for i := range counts {
+				counts[i] += 1000
+			}
+		}()
 		if len(counts) != len(bounds)+1 || len(gotBounds) != len(bounds) {
 			fail("bucket-count-vs-bounds", what, fmt.Sprintf("%d counts for %d bounds", len(counts), len(gotBounds)))
 			return
